@@ -7,6 +7,7 @@ import (
 	"go/ast"
 	"go/token"
 	"go/types"
+	"sort"
 	"strings"
 )
 
@@ -350,7 +351,7 @@ func (x *Exec) resliceView(st *State, base, r, lo Term) {
 		return
 	}
 	nv := x.ctx.fresh("view", "(Array Int "+es+")")
-	x.ctx.decl(fmt.Sprintf("(assert (forall ((k?r Int)) (! (= (select %s k?r) (select %s (+ %s k?r))) :pattern ((select %s k?r)))))", nv, vb.S, lo.S, nv))
+	x.ctx.declKeyed(nv, fmt.Sprintf("(assert (forall ((k?r Int)) (! (= (select %s k?r) (select %s (+ %s k?r))) :pattern ((select %s k?r)))))", nv, vb.S, lo.S, nv))
 	x.regView(m.S, r.S, nv)
 	x.bridge(nv, m, r)
 }
@@ -443,6 +444,19 @@ func (x *Exec) mapSet(st *State, m Term, u *types.Map, k, v Term) {
 	st.mem[khK] = x.define(st, "mh", Term{S: app("store", hm.S, m.S, app("store", app("select", hm.S, m.S), k.S, "true")), Sort: hm.Sort})
 }
 
+// mapLen: the number of keys, an uninterpreted function of the membership array; only its sign is axiomatised
+// (zero exactly when the map has no key), instantiated for the array at hand.
+func (x *Exec) mapLen(st *State, m Term, u *types.Map) Term {
+	_, khK, _, ks := x.mapKeys(u)
+	hm := x.memTerm(st, khK, "(Array Int (Array "+ks+" Bool))")
+	fn := "maplen!" + sortID(ks)
+	x.ctx.declOnce(fn, fmt.Sprintf("(declare-fun %s ((Array %s Bool)) Int)", fn, ks))
+	a := x.define(st, "mapkeys", Term{S: app("select", hm.S, m.S), Sort: "(Array " + ks + " Bool)"})
+	l := app(fn, a.S)
+	x.ctx.declOnceKeyed("maplen:"+a.S, a.S, fmt.Sprintf("(assert (and (>= %s 0) (= (= %s 0) (forall ((k?m %s)) (not (select %s k?m))))))", l, l, ks, a.S))
+	return Term{S: l, Sort: "Int", T: intT}
+}
+
 func (x *Exec) newMap(st *State, u *types.Map, t types.Type) Term {
 	_, khK, _, ks := x.mapKeys(u)
 	r := x.allocRef(st, "map")
@@ -482,6 +496,9 @@ var pureExternals = map[string]bool{
 	"fmt.Printf": true, "fmt.Println": true, "fmt.Fprintf": true, "fmt.Print": true, "fmt.Fprintln": true, "fmt.Fprint": true,
 	"strings.HasPrefix": true, "strings.HasSuffix": true, "strings.Join": true, "strings.Repeat": true,
 	"strconv.Itoa": true, "strconv.Quote": true,
+	"path.Join": true, "path.Base": true, "path.Dir": true, "path.Ext": true, "filepath.Join": true,
+	"strings.Split": true, "strings.TrimSpace": true, "strings.ToLower": true, "strings.ToUpper": true, "strings.Contains": true,
+	"strings.Index": true, "strings.TrimPrefix": true, "strings.TrimSuffix": true, "strings.Replace": true, "strings.ReplaceAll": true,
 }
 
 func (x *Exec) evalCall(call *ast.CallExpr, st *State) []Term {
@@ -651,6 +668,9 @@ func (x *Exec) callInterfaceMethod(call *ast.CallExpr, fn *types.Func, recv Term
 		r := recv
 		return x.callContract(call, c, fn, &r, args, st)
 	}
+	if rs, ok := x.dispatchClosedWorld(call, fn, recv, sig, args, st); ok {
+		return rs
+	}
 	x.ctx.note("interface method without contract (havoc of all memory): " + key)
 	x.havocAll(st)
 	var rs []Term
@@ -658,6 +678,96 @@ func (x *Exec) callInterfaceMethod(call *ast.CallExpr, fn *types.Func, recv Term
 		rs = append(rs, x.freshOf(st, "ret", sig.Results().At(i).Type()))
 	}
 	return rs
+}
+
+// dispatchClosedWorld resolves a dynamic call by case analysis over the implementers of the interface found in the
+// loaded program (closed world), using each implementer's own contract. Only side-effect free implementers
+// (contracts with an empty assigns clause) are combined without a path split: the result is constrained per
+// dynamic type. A nil receiver is an obligation.
+type implInfo struct {
+	t   types.Type
+	m   *types.Func
+	con *FuncContract
+}
+
+// pureImplementers lists the implementers of the interface method fn when every one of them has a contract with an
+// empty assigns clause (ok=false otherwise).
+func (x *Exec) pureImplementers(fn *types.Func) (impls []implInfo, ok bool) {
+	recv := fn.Type().(*types.Signature).Recv()
+	if recv == nil {
+		return nil, false
+	}
+	iface, isI := recv.Type().Underlying().(*types.Interface)
+	if !isI {
+		return nil, false
+	}
+	type impl = implInfo
+	for _, p := range x.prog.AllPkgs {
+		if p.Types == nil {
+			continue
+		}
+		sc := p.Types.Scope()
+		for _, name := range sc.Names() {
+			tn, ok := sc.Lookup(name).(*types.TypeName)
+			if !ok || tn.IsAlias() {
+				continue
+			}
+			if _, isI := tn.Type().Underlying().(*types.Interface); isI {
+				continue
+			}
+			for _, t := range []types.Type{tn.Type(), types.NewPointer(tn.Type())} {
+				if !types.Implements(t, iface) {
+					continue
+				}
+				obj, _, _ := types.LookupFieldOrMethod(t, true, fn.Pkg(), fn.Name())
+				m, ok := obj.(*types.Func)
+				if !ok {
+					continue
+				}
+				c := x.prog.Contracts.Funcs[funcKey(m)]
+				if c == nil || len(c.Assigns) > 0 || !(c.HasAssigns || c.Pure || c.Trusted) {
+					return nil, false
+				}
+				impls = append(impls, impl{t, m, c})
+				break
+			}
+		}
+	}
+	if len(impls) == 0 {
+		return nil, false
+	}
+	sort.Slice(impls, func(i, j int) bool { return types.TypeString(impls[i].t, nil) < types.TypeString(impls[j].t, nil) })
+	return impls, true
+}
+
+func (x *Exec) dispatchClosedWorld(call *ast.CallExpr, fn *types.Func, recv Term, sig *types.Signature, args []Term, st *State) ([]Term, bool) {
+	impls, ok := x.pureImplementers(fn)
+	if !ok {
+		return nil, false
+	}
+	var tags []string
+	for _, im := range impls {
+		tags = append(tags, app("=", app("i-tag", recv.S), fmt.Sprint(x.ctx.typeTag(im.t))))
+	}
+	x.oblige(st, "dispatch", fn.Name(), call, or(tags...))
+	var rs []Term
+	for i := 0; i < sig.Results().Len(); i++ {
+		rs = append(rs, x.freshOf(st, "ret_"+fn.Name(), sig.Results().At(i).Type()))
+	}
+	names := []string{}
+	for k, im := range impls {
+		names = append(names, types.TypeString(im.t, nil))
+		st.guards = append(st.guards, tags[k])
+		r := x.unboxPayload(app("i-val", recv.S), im.t)
+		// value receiver of a pointer implementer and vice versa are not mixed: the receiver type is im.t
+		ri := x.callContract(call, im.con, im.m, &r, args, st)
+		for i := range ri {
+			st.assume(app("=", rs[i].S, ri[i].S))
+		}
+		st.guards = st.guards[:len(st.guards)-1]
+	}
+	x.ctx.note("dynamic call " + funcKey(fn) + " resolved over the closed world of implementers: " + strings.Join(names, ", "))
+	return rs, true
 }
 
 func (x *Exec) evalConversion(call *ast.CallExpr, to types.Type, st *State) Term {
@@ -740,11 +850,8 @@ func (x *Exec) evalBuiltin(call *ast.CallExpr, name string, st *State) []Term {
 		if a, ok := v.T.Underlying().(*types.Array); ok {
 			return []Term{mkInt(a.Len())}
 		}
-		if _, ok := v.T.Underlying().(*types.Map); ok {
-			x.ctx.note("len(map) abstracted to a non-negative value")
-			r := x.freshOf(st, "maplen", intT)
-			st.assume(app("<=", "0", r.S))
-			return []Term{r}
+		if mt, ok := v.T.Underlying().(*types.Map); ok {
+			return []Term{x.mapLen(st, v, mt)}
 		}
 		x.unsupported(call, "%s of %s", name, v.T)
 	case "panic":
@@ -772,7 +879,7 @@ func (x *Exec) evalBuiltin(call *ast.CallExpr, name string, st *State) []Term {
 			if strings.Contains(zarr, "str!") {
 				// cvc5 wants a value in a constant array: define the zeroed array by an axiom instead
 				zarr = x.ctx.fresh("zeroed", "(Array Int "+es+")")
-				x.ctx.decl(fmt.Sprintf("(assert (forall ((k?z Int)) (! (= (select %s k?z) %s) :pattern ((select %s k?z)))))", zarr, x.zeroOf(u.Elem()).S, zarr))
+				x.ctx.declKeyed(zarr, fmt.Sprintf("(assert (forall ((k?z Int)) (! (= (select %s k?z) %s) :pattern ((select %s k?z)))))", zarr, x.zeroOf(u.Elem()).S, zarr))
 			}
 			nm := x.define(st, "e_make", Term{S: app("store", m.S, r.S, zarr), Sort: m.Sort})
 			st.mem[x.regElem(u.Elem())] = nm
@@ -829,10 +936,10 @@ func (x *Exec) evalAppend(call *ast.CallExpr, st *State) Term {
 		room := app("<", ln, cp)
 		fresh := x.allocRef(st, "grow")
 		ncap := x.ctx.fresh("newcap", "Int")
-		x.ctx.decl("(assert " + app(">", ncap, ln) + ")")
+		x.ctx.declKeyed(ncap, "(assert "+app(">", ncap, ln)+")")
 		// content of the fresh array: a copy of the old elements
 		farr := x.ctx.fresh("grown", "(Array Int "+es+")")
-		x.ctx.decl(fmt.Sprintf("(assert (forall ((k?a Int)) (! (=> (and (<= 0 k?a) (< k?a %s)) (= (select %s k?a) (select %s k?a))) :pattern ((select %s k?a)))))", ln, farr, view.S, farr))
+		x.ctx.declKeyed(farr, fmt.Sprintf("(assert (forall ((k?a Int)) (! (=> (and (<= 0 k?a) (< k?a %s)) (= (select %s k?a) (select %s k?a))) :pattern ((select %s k?a)))))", ln, farr, view.S, farr))
 		inPlace := app("store", m.S, arr, app("store", app("select", m.S, arr), app("+", off, ln), v.S))
 		grown := app("store", m.S, fresh.S, app("store", farr, ln, v.S))
 		nm := x.define(st, "e_app", Term{S: app("ite", room, inPlace, grown), Sort: m.Sort})
@@ -863,12 +970,12 @@ func (x *Exec) evalCopy(call *ast.CallExpr, st *State) Term {
 	sarr, soff := app("s-arr", src.S), app("s-off", src.S)
 	// view of dst afterwards
 	nv := x.ctx.fresh("copied", "(Array Int "+es+")")
-	x.ctx.decl(fmt.Sprintf("(assert (forall ((k?c Int)) (! (= (select %s k?c) (ite (and (<= 0 k?c) (< k?c %s)) (select %s k?c) (select %s k?c))) :pattern ((select %s k?c)))))", nv, n.S, vs.S, vd.S, nv))
+	x.ctx.declKeyed(nv, fmt.Sprintf("(assert (forall ((k?c Int)) (! (= (select %s k?c) (ite (and (<= 0 k?c) (< k?c %s)) (select %s k?c) (select %s k?c))) :pattern ((select %s k?c)))))", nv, n.S, vs.S, vd.S, nv))
 	// raw memory
 	na := x.ctx.fresh("copiedraw", "(Array Int "+es+")")
 	oldD := app("select", m.S, darr)
 	oldS := app("select", m.S, sarr)
-	x.ctx.decl(fmt.Sprintf("(assert (forall ((k?c Int)) (! (= (select %s k?c) (ite (and (<= %s k?c) (< k?c (+ %s %s))) (select %s (+ %s (- k?c %s))) (select %s k?c))) :pattern ((select %s k?c)))))",
+	x.ctx.declKeyed(na, fmt.Sprintf("(assert (forall ((k?c Int)) (! (= (select %s k?c) (ite (and (<= %s k?c) (< k?c (+ %s %s))) (select %s (+ %s (- k?c %s))) (select %s k?c))) :pattern ((select %s k?c)))))",
 		na, doff, doff, n.S, oldS, soff, doff, oldD, na))
 	nm := x.define(st, "e_copy", Term{S: app("store", m.S, darr, na), Sort: m.Sort})
 	st.mem[key] = nm
